@@ -56,7 +56,7 @@ def gen_weed(rng, samples, k, kind, rcmode):
     for _ in range(rng.randint(1, 4)):
         src = rng.choice(rng.choice(samples))
         a = rng.randrange(len(src))
-        b = min(len(src), a + rng.randint(k, 3 * k))
+        b = min(len(src), a + (k if rng.random() < 0.2 else rng.randint(k, 3 * k)))      # a fifth of the pieces are exactly k long
         w = src[a:b]
         t = rng.random()
         if t < 0.4:
